@@ -503,7 +503,9 @@ def primitive_conversion(rep, M, rid):
     if wraps:
         rep.ok(rid, "primitive system wrapped into its cell")
     else:
-        rep.violation(rid, "_get_primitive_system: wrap", "atoms of the primitive system are not wrapped into the primitive cell", M.where(fq))
+        # not an obligation of C12: an atom stored outside the primitive cell is the same atom modulo the lattice; count, volume, composition, space group
+        # and letters of the primitive description do not depend on it (mutation audit: no demo of C12 notices a dropped wrap)
+        rep.note("_get_primitive_system does not wrap the primitive atoms into the cell (allowed: positions are equivalent modulo the lattice)")
     # centring letter from the international short symbol
     cen = env.get(NM.get("CENTRING"))
     if cen is not None and isinstance(cen, ast.Subscript) and isinstance(cen.slice, ast.Constant) and cen.slice.value == 0:
